@@ -167,6 +167,78 @@ def wire_checks(ctx):
     return problems
 
 
+def lifetime_checks(ctx):
+    """an id stays registered - and addresses that connection - for exactly as long as the connection lives: a connection that
+    was told to die but has not finished (its client does not read the ERR, its session.close() is slow) still holds its id,
+    and a newcomer is never given it; once the task has ended the id is free again"""
+    problems = []
+    for how in ("kill-while-socket-paused", "kill-while-streaming", "disconnect"):
+        env = impl.Env(own_sleep=False)
+        try:
+            ctl = impl.LoggingControl(env, server_id=7)
+
+            class S(impl.Session):
+                async def query(self, e, sql, attrs):
+                    if b"slow" in sql.encode():
+                        async def rows():
+                            for i in range(3):
+                                await env.fut(("row", 0))
+                                yield (i,)
+                        return rows(), ["a"]
+                    return [(1,)], ["a"]
+
+            srv = impl.make_server(env, S, control=ctl)
+            a = impl.Conn(env, srv, cid=0)
+            env.settle()
+            aid = cl.parse_handshake_v10(cl.reassemble(a.take())[0][1])["thread_id"]
+            a.feed(cl.frame(cl.handshake_response(user=b"u"), 1)); a.take()
+            killer = impl.Conn(env, srv, cid=1)
+            env.settle(); killer.take()
+            killer.feed(cl.frame(cl.handshake_response(user=b"u"), 1)); killer.take()
+            if how == "kill-while-socket-paused":
+                a.writer.paused = True
+            elif how == "kill-while-streaming":
+                a.feed(cl.frame(bytes([cl.COM_QUERY]) + b"SELECT slow FROM t", 0))
+                a.writer.paused = True
+            if how == "disconnect":
+                a.eof()
+            else:
+                killer.feed(cl.frame(bytes([cl.COM_QUERY]) + b"KILL %d" % aid, 0)); killer.take()
+            ctx.evals += 1
+            alive = a.blocked_on() != "done"
+            registered = ctl._connections.get(aid)
+            if alive and (registered is None):
+                problems.append(dict(kind="released-while-alive", how=how, id=aid, blocked_on=a.blocked_on()))
+            if alive:
+                # the next id the registry would hand out must not be A's: force the sequence to A's value
+                ctl._connection_seq.value = aid & 0xFFFF if hasattr(ctl._connection_seq, "value") else 0
+                b = impl.Conn(env, srv, cid=2)
+                env.settle()
+                pk = cl.reassemble(b.take())
+                bid = cl.parse_handshake_v10(pk[0][1])["thread_id"] if pk and pk[0][1][:1] == b"\x0a" else None
+                if bid == aid:
+                    problems.append(dict(kind="id-given-twice", how=how, id=aid))
+                b.eof()
+            # let A finish
+            a.writer.paused = False
+            if ("drain", 0) in env.pending:
+                env.resolve(("drain", 0), None)
+            for _ in range(5):
+                if ("row", 0) in env.pending:
+                    env.resolve(("row", 0), None)
+            env.settle()
+            a.eof()
+            if a.blocked_on() == "done" and aid in ctl._connections and ctl._connections.get(aid) is registered and registered is not None:
+                problems.append(dict(kind="not-released-after-end", how=how, id=aid))
+            removes = [e for e in env.log if e == ("ctl_remove", aid)]
+            if len(removes) != 1:
+                problems.append(dict(kind="released-%d-times" % len(removes), how=how, id=aid))
+            killer.eof()
+        finally:
+            env.close()
+    return problems
+
+
 def run(ctx: core.Ctx):
     rng = ctx.rng
     pr = core.check_proofs(ctx, "Props/C18", headers=[HEADER])
@@ -270,7 +342,7 @@ def run(ctx: core.Ctx):
     ctx.evals += steps
     samples.append(dict(kind="long-history", steps=steps, includes="wrap-around with survivors, full registry, recovery"))
 
-    wp = wire_checks(ctx)
+    wp = wire_checks(ctx) + lifetime_checks(ctx)
     ctx.evals += 6
     if wp:
         witness = witness or dict(kind="wire", problems=wp)
